@@ -472,23 +472,42 @@ func (r *Run) makeChan(st *State, fr *Frame, x *ssa.MakeChan) Val {
 	size := r.intVal(st, fr, x.Size)
 	e.region(st, "chan.cap", []Sort{SChan}, SInt)
 	e.regionWrite1(st, "chan.cap", SInt, ch, size)
-	e.region(st, "chan.sent", []Sort{SChan}, SInt)
-	e.regionWrite1(st, "chan.sent", SInt, ch, IntLit(0))
-	e.region(st, "chan.recvd", []Sort{SChan}, SInt)
-	e.regionWrite1(st, "chan.recvd", SInt, ch, IntLit(0))
+	e.region(st, "chan.sent", []Sort{SChan}, e.cntSort())
+	e.regionWrite1(st, "chan.sent", e.cntSort(), ch, e.cntLit(0))
+	e.region(st, "chan.recvd", []Sort{SChan}, e.cntSort())
+	e.regionWrite1(st, "chan.recvd", e.cntSort(), ch, e.cntLit(0))
 	e.region(st, "chan.closed", []Sort{SChan}, SBool)
 	e.regionWrite1(st, "chan.closed", SBool, ch, False)
 	return ch
 }
 
+// channel event counters are Int (int mode) or 64-bit vectors (bv mode)
+func (e *Engine) cntSort() Sort {
+	if e.bv {
+		return BV(64)
+	}
+	return SInt
+}
+
+func (e *Engine) cntLit(n int64) T {
+	if e.bv {
+		return BVLit(uint64(n), 64)
+	}
+	return IntLit(n)
+}
+
 func (r *Run) chanCount(st *State, what string, ch T) T {
-	return r.e.regionRead(st, "chan."+what, []Sort{SChan}, SInt, ch)
+	return r.e.regionRead(st, "chan."+what, []Sort{SChan}, r.e.cntSort(), ch)
 }
 
 func (r *Run) bumpChan(st *State, what string, ch T) {
 	e := r.e
 	cur := r.chanCount(st, what, ch)
-	e.regionWrite1(st, "chan."+what, SInt, ch, App(SInt, "+", cur, IntLit(1)))
+	op := "+"
+	if e.bv {
+		op = "bvadd"
+	}
+	e.regionWrite1(st, "chan."+what, e.cntSort(), ch, App(e.cntSort(), op, cur, e.cntLit(1)))
 }
 
 func (r *Run) send(st *State, fr *Frame, x *ssa.Send) []*State {
@@ -501,8 +520,10 @@ func (r *Run) send(st *State, fr *Frame, x *ssa.Send) []*State {
 
 func (r *Run) sendEvent(st *State, fr *Frame, ch T, v Val, in ssa.Instruction) {
 	e := r.e
-	closed := e.regionRead(st, "chan.closed", []Sort{SChan}, SBool, ch)
-	e.safety(st, fr, in, "sendclosed", Not(closed), "send on a channel that this goroutine has not closed at "+e.posOf(in))
+	if r.createdHere(st, ch) {
+		closed := e.regionRead(st, "chan.closed", []Sort{SChan}, SBool, ch)
+		e.safety(st, fr, in, "sendclosed", Not(closed), "send on a channel that this function has not closed at "+e.posOf(in))
+	}
 	r.noteEscape(st, v)
 	r.bumpChan(st, "sent", ch)
 	st.Ghost["lastsent:"+ch.S] = v
@@ -544,6 +565,15 @@ func (r *Run) yield(st *State, fr *Frame, in ssa.Instruction, what string) {
 	if len(st.Locks) > 0 {
 		st.Facts["blocked-while-holding:"+r.e.posOf(in)] = what + " {" + locksKey(st.Locks) + "}"
 	}
+}
+
+func (r *Run) createdHere(st *State, ch T) bool {
+	for _, o := range st.Fresh {
+		if o.S == ch.S {
+			return true
+		}
+	}
+	return false
 }
 
 func (r *Run) closeChan(st *State, fr *Frame, ch T, in ssa.Instruction) []*State {
